@@ -42,39 +42,86 @@ func ruleCofactor(r *rep.Report, p *load.Program) {
 		paths := pathsOf(r, p, fn, geModel(), "CofactorMultiply")
 		dbl := func(x *pt.Term) *pt.Term { return T("ge25519.p1p1ToFull", T("ge25519.doubleP1p1", x)) }
 		want := dbl(dbl(dbl(L("P1")))).String()
+		// Double(x) is p1p1ToFull(doubleP1p1(x)) (checked below): normalise it away before comparing
+		for _, pa := range paths {
+			if f, ok := pa.Finals["P0"]; ok {
+				pa.Finals["P0"] = expandDouble(f)
+			}
+		}
 		runG(r, p, "S-cofactor", "CofactorMultiply", fn, paths, any, func(w *g.World) g.Terminal {
 			return g.Terminal{Kind: "return", Finals: map[string]string{"P0": want}}
 		})
+		if dfn := geFunc(r, p, "internal/ge25519", "Double"); dfn != nil {
+			dp := pathsOf(r, p, dfn, geModel(), "Double")
+			runG(r, p, "S-cofactor", "Double", dfn, dp, any, func(w *g.World) g.Terminal {
+				return g.Terminal{Kind: "return", Finals: map[string]string{"P0": dbl(L("P1")).String()}}
+			})
+		}
 	}
 	if fn := geFunc(r, p, "internal/ge25519", "IsNeutralVartime"); fn != nil {
 		paths := pathsOf(r, p, fn, geModel(), "IsNeutralVartime")
 		c := func(f string) *pt.Term { return T("curve25519.Contract", fld(L("P0"), f)) }
-		xz := T("byteseq", pt.Zero, c("x")).String()
-		yz := T("byteseq", c("y"), c("z")).String()
-		// both orders of the conjunction are fine: evaluate as a truth table over the two equalities
-		worlds := g.Product(nil, []string{xz, yz}, nil)
-		// the function may test either conjunct first and return the other; accept by semantics
+		// whole-array equality may be spelled bytes.Equal(a,b) or subtle.ConstantTimeCompare(a,b) == 1 (public data)
+		eqForms := func(a, b *pt.Term) []string {
+			return []string{T("byteseq", a, b).String(), T("eq", N(1), T("cteq", a, b)).String()}
+		}
+		xzs, yzs := eqForms(pt.Zero, c("x")), eqForms(c("y"), c("z"))
+		isIn := func(s string, set []string) bool {
+			for _, x := range set {
+				if x == s {
+					return true
+				}
+			}
+			return false
+		}
 		ok := paths != nil
 		if ok {
-			for wi := range worlds {
-				w := &worlds[wi]
-				pa := pathFor(paths, w)
-				want := w.Bools[xz] && w.Bools[yz]
-				got, decided := false, false
-				if pa != nil && pa.Kind == "return" && len(pa.Results) == 1 {
-					switch pa.Results[0].String() {
-					case "#false":
-						got, decided = false, true
-					case "#true":
-						got, decided = true, true
-					case xz:
-						got, decided = w.Bools[xz], true
-					case yz:
-						got, decided = w.Bools[yz], true
+			// evaluate every path: its atoms must be among the two equalities, its result a constant or one of them
+			for vx := 0; vx < 2 && ok; vx++ {
+				for vy := 0; vy < 2 && ok; vy++ {
+					want := vx == 1 && vy == 1
+					matched := 0
+					for _, pa := range paths {
+						consistent := true
+						for _, a := range pa.Atoms {
+							switch {
+							case isIn(a.Key, xzs):
+								if a.Val != (vx == 1) {
+									consistent = false
+								}
+							case isIn(a.Key, yzs):
+								if a.Val != (vy == 1) {
+									consistent = false
+								}
+							default:
+								ok = false
+							}
+						}
+						if !consistent {
+							continue
+						}
+						matched++
+						got, decided := false, false
+						if pa.Kind == "return" && len(pa.Results) == 1 {
+							rs := pa.Results[0].String()
+							switch {
+							case rs == "#false":
+								got, decided = false, true
+							case rs == "#true":
+								got, decided = true, true
+							case isIn(rs, xzs):
+								got, decided = vx == 1, true
+							case isIn(rs, yzs):
+								got, decided = vy == 1, true
+							}
+						}
+						if !decided || got != want {
+							ok = false
+						}
 					}
-				}
-				if !decided || got != want {
-					ok = false
+					if matched != 1 {
+						ok = false
+					}
 				}
 			}
 		}
@@ -274,3 +321,18 @@ func ruleConversions(r *rep.Report, p *load.Program) {
 
 var _ = fmt.Sprintf
 var _ *roles.Roles
+
+// expandDouble rewrites ge25519.Double(x) into ge25519.p1p1ToFull(ge25519.doubleP1p1(x)).
+func expandDouble(t *pt.Term) *pt.Term {
+	if t == nil || len(t.Args) == 0 {
+		return t
+	}
+	args := make([]*pt.Term, len(t.Args))
+	for i, a := range t.Args {
+		args[i] = expandDouble(a)
+	}
+	if t.Op == "ge25519.Double" && len(args) == 1 {
+		return T("ge25519.p1p1ToFull", T("ge25519.doubleP1p1", args[0]))
+	}
+	return T(t.Op, args...)
+}
